@@ -1,2 +1,4 @@
 import NibiruModel.Prelude
 import NibiruModel.Epochs
+import NibiruModel.SdkDec
+import NibiruModel.Inflation
